@@ -159,3 +159,35 @@ def check(ctx):
         ctx.require(set(fields) <= rd, "R-COVER", "operands:" + tname, "Display for %s prints %s" % (tname, fields), "Display for %s does not read operand field(s) %s" % (tname, sorted(set(fields) - rd)),
                     sample={"type": tname, "fields": fields})
     ctx.floor("R-COVER", "operand-printing impls checked", n_disp, 12)
+    # operands are printed "as in the script": the AST structs declare their operands in script order, and each Display impl
+    # hands the fields to the formatter in that same order (the argument array of format_args! is an ordered aggregate)
+    ctx.clause("R-FLOW Display impls print the operand fields in declaration (= script) order")
+    n_ord = 0
+    for f in F.impl_fns("fmt::Display", "air_parser::ast::", "fmt"):
+        if not f.file.endswith("ast/instructions/traits.rs"):
+            continue
+        selfty = F.impl_of(f)["self"].split("<")[0]
+        adt_ = F.adts.get(selfty)
+        if adt_ is None or len(adt_["variants"]) != 1:
+            continue
+        decl = [fl["name"] for fl in adt_["variants"][0]["fields"]]
+        fp_ = Prov(f)
+        printed = []
+        for bi, si, s_ in f.stmts():
+            rv = s_["rv"]
+            if rv["k"] == "agg" and rv.get("kind") == "array":
+                for o in rv["ops"]:
+                    e = fp_.operand(o)
+                    fl = [x[2] for x in walk(e) if x[0] == "field" and x[1][0] == "param"]
+                    if fl:
+                        printed.append(fl[0])
+        if not printed:
+            continue
+        n_ord += 1
+        it = iter(decl)
+        in_order = all(any(d == x for d in it) for x in printed)
+        tname = selfty.split("::")[-1]
+        ctx.require(in_order, "R-FLOW", "display-order:" + tname, "Display for %s prints %s in declaration order" % (tname, printed),
+                    "Display for %s prints its operands as %s but the script order (field order of the AST node) is %s: the beautifier shows operands swapped" % (tname, printed, decl),
+                    sample={"type": tname, "printed": printed})
+    ctx.floor("R-FLOW", "Display impls with ordered operands", n_ord, 10)
